@@ -74,7 +74,7 @@ def runPhases : List Phase → FS → Res
 /-- the stages of `stages` (Model/Resume.lean), the two per-chromosome loops replaced by parallel stages;
     `s1` / `s2` = the schedules of the collection / model-construction pool -/
 def phases (v : Variant) (cfg : Cfg) (ord : List Path) (resume sk : Bool) (s1 s2 : List Chr) : List Phase :=
-  [.seq (paramsStage resume), .seq (refStage v cfg resume), .seq (rgStage cfg resume), .seq (collectPre cfg resume (sk || cfg.fromSaves)),
+  [.seq (paramsStage v resume), .seq (refStage v cfg resume), .seq (rgStage cfg resume), .seq (collectPre cfg resume (sk || cfg.fromSaves)),
    .pool (collectChr v cfg resume (sk || cfg.fromSaves)) cfg.chrs s1,
    .seq (collectPost cfg (sk || cfg.fromSaves)), .seq (constructPre cfg),
    .pool (constructChr v cfg resume) cfg.chrs s2,
